@@ -79,6 +79,147 @@ def cases(tier, rng):
                 sizes = [b - a for a, b in zip([0] + cut, cut)]
                 yield dict(c, ops=[['pop', s] for s in sizes if s > 0] + [['pop', rng.randint(1, 60)], ['pop', 40]])
             yield dict(c, ops=[['pop', rng.randint(1, 25)] for _ in range(rng.randint(1, 8))] + [['pop', 120]])
+    yield from _audit_cases(quick, rng)
+
+
+def _chunkings(c, rng, k=2, tail=40):
+    """request sequences ending at / one before / one after the waveform and delay boundaries of c's timeline"""
+    B = _boundaries(c)
+    pts = sorted({b + d for b in B for d in (-1, 0, 1) if b + d > 0})
+    for _ in range(k):
+        cut = sorted(rng.sample(pts, min(len(pts), rng.randint(1, 5)))) if pts else [3]
+        sizes = [b - a for a, b in zip([0] + cut, cut)]
+        yield [['pop', s] for s in sizes if s > 0] + [['pop', rng.randint(1, 30)], ['pop', tail]]
+
+
+def _audit_cases(quick, rng):
+    """Public surface of queue.py that the generators above never reached (coverage audit): constructor
+    variants, argument kinds, sentinel values, boundary values of every comparison, caller aliasing, twins."""
+    S2 = [{'len': 3, 'trials': 2, 'kind': 'array', 'delays': 1}, {'len': 2, 'trials': 1, 'kind': 'gen', 'delays': 0},
+          {'len': 4, 'trials': 2, 'kind': 'array', 'delays': 2}]
+    rep = 1 if quick else 4
+
+    def base(pol, stims, **kw):
+        c = {'pol': pol, 'gs': 2, 'stims': stims, 'fs': rng.choice(FS), 't0': rng.choice([0, 17, 12.34]),
+             'seed': rng.randint(0, 50), 'fill': rng.choice(['append', 'extend', 'mixed'])}
+        c.update(kw)
+        return c
+
+    # A. every way of constructing each queue class: class / `queues` dict, fs by keyword / positionally / set_fs(),
+    #    fs as float / int / NumPy scalar, options explicit / defaulted / positional / truthy non-bool / NumPy int,
+    #    set_t0() never called
+    for pol in qc.POLICIES:
+        for mk in ({'via': 'dict'}, {'fs': 'set_fs', 'fs_kind': 'np64'}, {'fs': 'pos', 'fs_kind': 'int'},
+                   {'opt': 'default', 't0': 'skip'}, {'opt': 'pos', 'fs_kind': 'int'}, {'opt': 'truthy', 'via': 'dict'},
+                   {'opt': 'np', 'fs': 'set_fs'}):
+            for _ in range(rep):
+                c = base(pol, S2, mk=mk, seed=0 if mk.get('opt') == 'default' else rng.randint(0, 9))
+                if mk.get('fs_kind') == 'int':
+                    c['fs'] = rng.choice([1000.0, 25000.0])
+                if mk.get('t0') == 'skip':
+                    c['t0'] = 0
+                for ops in _chunkings(c, rng, 1):
+                    yield dict(c, ops=ops)
+    # B. containers and dtypes of array sources, twins of the generator path
+    for kind in ('i64', 'i16', 'f32', 'ro', 'view', 'list', 'gen', 'cos2'):
+        for pol in (rng.sample(qc.POLICIES, 2) if quick else qc.POLICIES):
+            st = [{'len': rng.choice([0, 1, 3, 5]), 'trials': rng.randint(1, 3), 'kind': kind, 'delays': rng.choice([0, 1, 2])},
+                  {'len': rng.choice([2, 4]), 'trials': rng.randint(1, 2), 'kind': rng.choice(['array', kind]), 'delays': rng.choice([0, 2])}]
+            c = base(pol, st)
+            for ops in _chunkings(c, rng, 2):
+                yield dict(c, ops=ops)
+    # C. kinds of trial counts; a zero count (falsy) is presented once by the FIFO-type queues
+    for tk in ('np', 'float', 'npf'):
+        for pol in (rng.sample(qc.POLICIES, 3) if quick else qc.POLICIES):
+            st = [dict(x, tkind=tk) for x in S2]
+            c = base(pol, st)
+            for ops in _chunkings(c, rng, 1):
+                yield dict(c, ops=ops)
+    for pol in qc.POLICIES:
+        st = [dict(S2[0], trials=0), S2[1]]
+        c = base(pol, st)
+        for ops in _chunkings(c, rng, 1):
+            yield dict(c, ops=ops)
+    # D. delays: None / int 0 / NumPy scalar / tuple / ndarray / iterator / generator / itertools.cycle; off-grid and
+    #    half-sample values (round half even of delay*fs), tiny negatives that round to 0, negatives that raise,
+    #    finite lists exactly as long as needed and one too short (StopIteration)
+    dvars = [{'delays': None}, {'delays': 0, 'dkind': 'int0'}, {'delays': 2, 'dkind': 'np'}, {'delays': 0.0},
+             {'delays': [1, 0, 2, 3, 0, 1, 2, 0, 1, 1, 0, 2], 'dkind': 'tuple'}, {'delays': [2, 0, 1, 3, 0, 1, 2, 0, 1, 1, 0, 2], 'dkind': 'ndarray'},
+             {'delays': [0, 2, 1, 0, 3, 1, 2, 0, 1, 1, 0, 2], 'dkind': 'iter'}, {'delays': [1, 2, 0, 0, 3, 1, 2, 0, 1, 1, 0, 2], 'dkind': 'gen'},
+             {'delays': [0, 3], 'dkind': 'cycle'}, {'delays': [2, 0, 1], 'dkind': 'cycle'}, {'delays': [1.4, 0.5, 2.5, 0.3], 'dkind': 'cycle'},
+             {'delays': 0.3}, {'delays': 0.5}, {'delays': 1.5}, {'delays': 2.5}, {'delays': 2.7}, {'delays': 0.49999},
+             {'delays': -0.2}, {'delays': -0.4}, {'delays': -0.6}, {'delays': -1}, {'delays': []}, {'delays': [], 'dkind': 'ndarray'}]
+    for dv in dvars:
+        for pol in (rng.sample(qc.POLICIES, 2) if quick else qc.POLICIES):
+            st = [dict(S2[0], **dv), dict(S2[1], **rng.choice(dvars[:3] + dvars[11:17])), dict(S2[2], **dv)]
+            c = base(pol, st)
+            for ops in _chunkings(c, rng, 1):
+                yield dict(c, ops=ops)
+    for short in (0, 1):
+        for pol in ('fifo', 'random', 'inter_nokeep'):
+            tr = [rng.randint(1, 3) for _ in range(2)]
+            st = [{'len': 2, 'trials': t, 'kind': rng.choice(['array', 'gen']), 'delays': [rng.randint(0, 2) for _ in range(t - short)],
+                   'dkind': rng.choice(['auto', 'tuple', 'iter'])} for t in tr]
+            c = base(pol, st)
+            yield dict(c, ops=[['pop', 3], ['pop', 40], ['pop', 5]])
+    # E. start offsets: negative on- and off-grid, tiny, huge
+    for t0 in (-5, -7.3, 1e-7, -1e-7, 0.5, 10 ** 9, 10 ** 9 + 0.25):
+        for pol in rng.sample(qc.POLICIES, 2 if quick else 5):
+            c = base(pol, S2, t0=t0)
+            for ops in _chunkings(c, rng, 1):
+                yield dict(c, ops=ops)
+    # F. request sizes as NumPy integers / by keyword; zero-size and negative requests (an empty buffer, nothing else happens)
+    for pol in qc.POLICIES:
+        c = base(pol, S2)
+        for ops in _chunkings(c, rng, 1):
+            yield dict(c, ops=[o + [rng.choice(['np', 'np32', 'kw'])] for o in ops])
+    for pre in ([], [['pop', 3]], [['pop', 3], ['pop', 60]]):
+        yield dict(base('fifo', S2), ops=pre + [['pop', 0], ['pop', 4]])
+    yield dict(base('inter_keep', S2), ops=[['pop', 2], ['pop', -1]])
+    if not quick:
+        for pol in qc.POLICIES:
+            yield dict(base(pol, [dict(S2[0], trials=300), dict(S2[1], trials=200)]), ops=[['pop', 1], ['pop', 4000], ['pop', 7]])
+    # G. pop_buffer(n, decrement=False): trials are set up and notified, the counters stay (no queue ever runs out)
+    P = [{'len': 3, 'trials': 2, 'kind': 'array', 'delays': 1}, {'len': 1, 'trials': 1, 'kind': 'gen', 'delays': 0},
+         {'len': 0, 'trials': 2, 'kind': 'array', 'delays': 2}]
+    for pol in qc.POLICIES:
+        for flag in ('nd', 'ndkw'):
+            c = base(pol, P)
+            sizes = [rng.randint(1, 6) for _ in range(rng.randint(2, 5))] + [25]
+            yield dict(c, ops=[['pop', n, flag] for n in sizes])
+        c = base(pol, P)
+        yield dict(c, ops=[['pop', rng.randint(1, 9), rng.choice(['', 'nd'])] for _ in range(6)] + [['pop', 60]])
+    # H. extend() with scalars applied to every source, delays omitted, per-source lists of per-trial delays
+    for pol in qc.POLICIES:
+        for dl in (None, 0, 2, 1.5):
+            st = [{'len': n, 'trials': 2, 'kind': k, 'delays': dl} for n, k in ((3, 'array'), (2, 'gen'), (0, 'array'), (1, 'i64'))]
+            c = base(pol, st[:rng.randint(1, 4)], fill='extend_scalar')
+            for ops in _chunkings(c, rng, 1):
+                yield dict(c, ops=ops)
+    # I. declared duration (explicit, equal to / longer / shorter than the waveform, 0) and metadata (incl. falsy)
+    metas = [0, '', 'x', {'a': 1}, [1, 2], False, None, 3.5]
+    for pol in qc.POLICIES:
+        for _ in range(rep):
+            st = [dict(x, dur=rng.choice([x['len'], x['len'] + 2, 0, max(0, x['len'] - 1)]), meta=rng.choice(metas)) for x in S2]
+            if rng.random() < 0.5:
+                del st[1]['dur']
+            if rng.random() < 0.5:
+                del st[2]['meta']
+            c = base(pol, st)
+            for ops in _chunkings(c, rng, 1):
+                yield dict(c, ops=ops)
+    # J. clone() at every phase (fresh, inside a waveform, in a gap, after empty); the original keeps running
+    for pol in qc.POLICIES:
+        c = base(pol, S2)
+        for at in ([0, 2, 4, 9] if quick else range(0, 30)):
+            pre = [['pop', at]] if at else []
+            yield dict(c, ops=pre + [['clone'], ['pop', 3], ['pop', 2], ['clone'], ['pop', 50], ['pop', 4]])
+    # K. get_closest_key(t) around every notified start, on and off the grid, before the first trial
+    for pol in qc.POLICIES:
+        c = base(pol, S2)
+        B = _boundaries(c)
+        qs = sorted({b + d for b in B[:8] for d in (-1, -0.5, 0, 0.5, 1)} | {-3})
+        yield dict(c, ops=[['closest', 0], ['pop', 7]] + [['closest', k] for k in qs] + [['pop', 60]] + [['closest', k] for k in qs[-4:]])
 
 
 def impl(case):
@@ -117,28 +258,37 @@ def oracle(case, res):
     out = []
     added = []
     for r in res:
-        out += r['wave']
+        out += r.get('wave', [])
         added += [e for e in r['events'] if e[0] == 'added']
     n = len(out)
+    if n == 0:
+        return None
     # clock
-    if res[-1]['status']['samples'] != n or not res[-1]['status']['ts_exact']:
-        return f'queue clock {res[-1]["status"]["samples"]} != samples emitted {n}'
+    last = [r for r in res if 'status' in r][-1]['status']
+    if last['samples'] != n or not last['ts_exact']:
+        return f'queue clock {last["samples"]} != samples emitted {n}'
     # chunk invariance against one single request on a fresh queue
-    one = qc.run_impl(dict(case, ops=[['pop', n]]))[0]
-    if 'raised' in one:
+    flags = {('nd' if (len(o) > 2 and o[2] in ('nd', 'ndkw')) else '') for o in case['ops'] if o[0] == 'pop'}
+    if len(flags) > 1:
+        one = None            # automatic and manual decrement mixed: no single request is equivalent
+    else:
+        one = qc.run_impl(dict(case, ops=[['pop', n, flags.pop()]]))[0]
+    if one is None:
+        pass
+    elif 'raised' in one:
         return f'single request raised {one["raised"]}'
-    if one['wave'] != out:
+    elif one['wave'] != out:
         j = [a != b for a, b in zip(one['wave'], out)].index(True)
         return f'output depends on chunking (first difference at sample {j})'
-    a1 = [e[:3] for e in one['events'] if e[0] == 'added']
-    if a1 != [e[:3] for e in added]:
+    elif [e for e in one['events'] if e[0] == 'added'] != added:
+        a1 = [e[:3] for e in one['events'] if e[0] == 'added']
         return f'added notifications depend on chunking: {a1[:6]} vs {[e[:3] for e in added][:6]}'
     # timeline rendering
     exp = np.zeros(n)
     prev_end = None
     waves = [qc.expected_wave(st, k, fs) for k, st in enumerate(case['stims'])]
     for e in added:
-        _, k, s, exact, dur = e
+        k, s, exact = e[1], e[2], e[3]
         if not exact:
             return 'a notified start time is not on the sample grid'
         w = waves[k]
